@@ -85,19 +85,20 @@ template <class G, class L> static inline void vh_label_set(G &g, unsigned i, un
 
 // Arbitrary directed pre-state on n vertices: every list is an arbitrary sequence over [0,n) in which a value
 // occurs at most DUP times; C[i][j] receives the number of copies of (i,j).  Returns the total number of entries.
-template <class G> static inline size_t vh_build_directed(G &g, unsigned n, unsigned C[NM][NM]) {
+template <class G> static inline size_t vh_build_directed(G &g, unsigned n, unsigned C[NM][NM], unsigned (*LST)[VH_LC] = 0, unsigned *LEN = 0) {
     size_t cnt = 0;
     for (unsigned i = 0; i < NM; ++i) for (unsigned j = 0; j < NM; ++j) C[i][j] = 0;
     for (unsigned i = 0; i < NM; ++i) if (i < n) {
         unsigned vals[VH_LC]; unsigned len = nd(DUP * n + 1);
         for (unsigned c = 0; c < VH_LC; ++c) if (c < len) { unsigned j = nd(n); ASSUME(C[i][j] < DUP); vals[c] = j; ++C[i][j]; }
         vh_list_set(g, i, vals, len); cnt += len;
+        if (LST) { LEN[i] = len; for (unsigned c = 0; c < VH_LC; ++c) if (c < len) LST[i][c] = vals[c]; }
     }
     return cnt;
 }
 // Arbitrary symmetric pre-state: an arbitrary symmetric copy-count matrix C (entries <= DUP) is chosen first, then each
 // list is an arbitrary ordering of its row (a self-loop occupies C[i][i] slots of list i).  Returns #copies over i<=j.
-template <class G> static inline size_t vh_build_undirected(G &g, unsigned n, unsigned C[NM][NM]) {
+template <class G> static inline size_t vh_build_undirected(G &g, unsigned n, unsigned C[NM][NM], unsigned (*LST)[VH_LC] = 0, unsigned *LEN = 0) {
     size_t cnt = 0;
     for (unsigned i = 0; i < NM; ++i) for (unsigned j = 0; j < NM; ++j) C[i][j] = 0;
     for (unsigned i = 0; i < NM; ++i) for (unsigned j = i; j < NM; ++j) if (i < n && j < n) { unsigned c = nd(DUP + 1); C[i][j] = c; C[j][i] = c; cnt += c; }
@@ -106,6 +107,7 @@ template <class G> static inline size_t vh_build_undirected(G &g, unsigned n, un
         unsigned seen[NM]; for (unsigned j = 0; j < NM; ++j) seen[j] = 0;
         for (unsigned c = 0; c < VH_LC; ++c) if (c < len) { unsigned j = nd(n); ASSUME(seen[j] < C[i][j]); ++seen[j]; vals[c] = j; }
         vh_list_set(g, i, vals, len);
+        if (LST) { LEN[i] = len; for (unsigned c = 0; c < VH_LC; ++c) if (c < len) LST[i][c] = vals[c]; }
     }
     return cnt;
 }
